@@ -100,6 +100,7 @@ structure ClassDef where
   abstract : Bool                  -- `yatiml.util.is_abstract`
   params : List Param              -- `class_subobjects` of the effective `__init__`
   argNames : List String           -- `getfullargspec(__init__).args` without `self`
+  extraTy : Option Ty              -- the annotation of `_yatiml_extra`, if it has one
   recognize : Option (List RecOp)  -- `_yatiml_recognize` in the class's own `__dict__`
   savorize : Option (List SavOp)   -- `_yatiml_savorize` in the class's own `__dict__`
   /-- does the user's `__init__` (or string-like constructor) raise for these arguments? -/
